@@ -1,12 +1,14 @@
 import Qv.Drv.C14
 import Qv.Drv.C15
+import Qv.Drv.C11
 /-! Line protocol: `<op> <json>` per line in, one JSON document per line out. -/
 open Lean
 
 def handlers : List (String × (Json → Except String Json)) := [
   ("C14.pmap", Qv.Drv.C14.pmap),
   ("C14.serial", Qv.Drv.C14.serial),
-  ("C15.history", Qv.Drv.C15.history)
+  ("C15.history", Qv.Drv.C15.history),
+  ("C11.prop", Qv.Drv.C11.prop)
 ]
 
 def handle (line : String) : String :=
